@@ -33,7 +33,12 @@ RULE = ("Random: records of 60..3000 bases, linear or circular, with 2-9 genes b
         "linked by shared genes / core overlap / extent overlap with the extent starts in any order relative to the "
         "cores'; one case in three of all of these is built with a history (part of the protoclusters and genes added "
         "after candidates were created once, candidates then cleared; form_history_enum: all pairs of shapes x which "
-        "protocluster is late x all genes late) (form_chain_enum: every order of the extent starts for chains of 4-6, thorough 7). Genes next to a "
+        "protocluster is late x all genes late) (form_chain_enum: every order of the extent starts for chains of 4-6, thorough 7). One random case in seven comes from the forced "
+        "family 'short record, 2-5 protoclusters of one product whose extents are all the whole record, different "
+        "cores' (form_ties_enum: every set of 2-3 such cores of 1-2 cells), and form_specs has a mode 'extent and "
+        "product of an earlier protocluster, another core'; every case is formed again from freshly created objects "
+        "(other creation order, other addresses; six times when such a tie exists) and the order in which each "
+        "candidate lists its members must not change. Genes next to a "
         "core (inside the neighbourhood only) are given the protocluster's own product one time in six. Non-trivial: >= 3 protoclusters with at least two different relations among "
         "share-a-defining-gene / cores overlap / extents overlap, or a relation through an origin-spanning core or "
         "extent, or two related protoclusters with identical coordinates, or a same-coordinates promotion; distinct = "
@@ -285,8 +290,11 @@ class Reference:
 
 # --------------------------------------------------------------------------- building and observing
 
-def _build_record(spec: dict):
-    """ Plain build: genes, then protoclusters. With spec["late_protos"] / spec["late_genes"] the record has a
+def _build_record(spec: dict, creation: list = None, padding: int = 0, keep: list = None):
+    """ creation: the order in which the protocluster objects are created (they are still added to the record in
+        spec order); padding / keep: throw-away objects allocated between them and a list that keeps them alive, so
+        that a re-creation puts the same protoclusters at other memory addresses in another relative order.
+        Plain build: genes, then protoclusters. With spec["late_protos"] / spec["late_genes"] the record has a
         history: the early genes and protoclusters are added, candidates are created, then the late protoclusters
         and after them the late genes are added, and the candidates are cleared again. The content is the same,
         so the outcome has to be the same as for the plain build (the statement speaks of the set of protoclusters
@@ -302,13 +310,16 @@ def _build_record(spec: dict):
         for product in gene.get("core_for", []):
             cds.gene_functions.add(GeneFunction.CORE, "verif", "desc", product)
         genes.append((gene["name"], cds))
-    protos = []
-    for proto in spec["protos"]:
+    protos = [None] * len(spec["protos"])
+    for position, index in enumerate(creation if creation is not None else range(len(protos))):
+        proto = spec["protos"][index]
+        if keep is not None and padding:
+            keep.append([bytearray(16 * ((position + padding) % 7 + 1)) for _ in range(padding)])
         if proto.get("sideloaded"):
             feature = SideloadedProtocluster(to_loc(proto["core"]), to_loc(proto["loc"]), "verif", proto["product"])
         else:
             feature = make_protocluster(proto["core"], proto["loc"], product=proto["product"])
-        protos.append(feature)
+        protos[index] = feature
     for name, cds in genes:
         if name not in late_genes:
             record.add_cds_feature(cds)
@@ -338,6 +349,29 @@ def _observe(candidates, index_of: dict) -> tuple:
         repeated = repeated or len(members) != len(set(members))
         seen.append((str(cand.kind), tuple(sorted(set(members))), _parts(ring.from_bio(cand.location))))
     return seen, repeated
+
+
+def _proto_key(proto: dict) -> tuple:
+    """ what identifies a protocluster for the order of the members of a candidate: core, product and extent
+        (not the class: a sideloaded protocluster and a detected one may agree in all of these and in the tool) """
+    return (_parts(proto["core"]), proto["product"], _parts(proto["loc"]))
+
+
+def _member_orders(spec: dict, candidates, index_of: dict) -> list:
+    """ per candidate, in the order returned: (kind, location, the members in the order the candidate lists them,
+        each identified by core + product + extent) """
+    return [(str(cand.kind), _parts(ring.from_bio(cand.location)),
+             tuple(_proto_key(spec["protos"][index_of[id(proto)]]) for proto in cand.protoclusters))
+            for cand in candidates]
+
+
+def _tie_groups(spec: dict) -> list:
+    """ groups of protoclusters with the same extent and product but different cores: nothing but the core tells
+        them apart (the tool is the same for all protoclusters built here) """
+    groups: dict = {}
+    for index, proto in enumerate(spec["protos"]):
+        groups.setdefault((_parts(proto["loc"]), proto["product"]), set()).add(_parts(proto["core"]))
+    return [cores for cores in groups.values() if len(cores) > 1]
 
 
 def _fmt(entries) -> list:
@@ -495,6 +529,7 @@ def check_form(spec: dict) -> dict:
     orders = [list(perm) for perm in spec["perms"]]
     orders.append([index_of[id(proto)] for proto in record.get_protoclusters()])   # what the record passes on
     repeated_member = False
+    member_orders: list = []      # (what was run, per candidate the members in listed order)
 
     def run_all() -> list:
         nonlocal repeated_member
@@ -502,6 +537,8 @@ def check_form(spec: dict) -> dict:
         for order in orders:
             with code_under_test("formation_total"):
                 created = formation.create_candidates_from_protoclusters([protos[i] for i in order], wrap)
+            member_orders.append(({"order": order, "creation": "spec order"},
+                                  _member_orders(spec, created, index_of)))
             seen, repeated = _observe(created, index_of)
             repeated_member = repeated_member or repeated
             outcomes.append(seen)
@@ -541,6 +578,38 @@ def check_form(spec: dict) -> dict:
         detail["all_failed"] = sorted({clause for clause, _ in failures})
         raise Violation(failures[0][0], detail)
 
+    # "the outcome does not depend on the order in which protoclusters were supplied": the outcome includes the
+    # order in which every candidate lists its members (products, detection rules and the protocluster numbers
+    # written out follow it). The same protoclusters are formed again from freshly created objects, made in another
+    # order with throw-away allocations in between, so that anything ordered by object identity (set iteration)
+    # shows; all objects of earlier rounds stay alive, so the new ones cannot reuse their addresses.
+    ties = _tie_groups(spec)
+    count = len(protos)
+    if count > 1:
+        keep: list = [protos, record]
+        creations = [list(range(count))[::-1]]
+        if ties:
+            creations += [list(range(count)), list(range(1, count)) + [0], list(range(count))[::-1],
+                          list(range(count))[::2] + list(range(count))[1::2], list(range(count))[::-1]]
+        for number, creation in enumerate(creations):
+            again_record, again = _build_record(spec, creation, padding=number + 1, keep=keep)
+            keep.extend([again_record, again])
+            again_index = {id(proto): index for index, proto in enumerate(again)}
+            for order in (orders if ties else orders[:2]):
+                with code_under_test("formation_total"):
+                    created = formation.create_candidates_from_protoclusters([again[i] for i in order], wrap)
+                member_orders.append(({"order": order, "creation": creation, "padding": number + 1},
+                                      _member_orders(spec, created, again_index)))
+    first_run, first = member_orders[0]
+    for run, listed in member_orders[1:]:
+        if sorted(listed) != sorted(first):
+            only_a = sorted(set(first) - set(listed))
+            only_b = sorted(set(listed) - set(first))
+            raise Violation("P4_member_order", {"run_a": first_run, "run_b": run,
+                                                "only_a": [list(map(list, e[2])) for e in only_a][:3],
+                                                "only_b": [list(map(list, e[2])) for e in only_b][:3],
+                                                "candidates_a": [[e[0], list(e[1])] for e in only_a][:3]})
+
     return _describe(spec, outcomes[0], model, repeated_member)
 
 
@@ -576,6 +645,8 @@ def _describe(spec: dict, got: list, model: Reference, repeated_member: bool) ->
         classes.append("relation_through_origin_spanning_area")
     if identical:
         classes.append("identical_coordinates_pair")
+    if _tie_groups(spec):
+        classes.append("same_extent_same_product_different_cores")
     hybrids = sum(1 for kind, _, _ in got if kind == HYBRID)
     if hybrids > 1:
         classes.append("hybrids_3_or_more" if hybrids > 2 else "hybrids_2")
@@ -627,7 +698,7 @@ def _describe(spec: dict, got: list, model: Reference, repeated_member: bool) ->
 
 SUBCHECKS = {"form": check_form, "form_enum": check_form, "form_twins_enum": check_form,
              "form_bridge_enum": check_form, "form_spanning_enum": check_form, "form_chain_enum": check_form,
-             "form_history_enum": check_form}
+             "form_history_enum": check_form, "form_ties_enum": check_form}
 
 
 def _sig_same_pass_tie(sub: str, spec: dict, clause: str, detail: dict) -> bool:
@@ -868,6 +939,70 @@ def chain_specs(draw):
 
 
 @st.composite
+def tie_specs(draw):
+    """ forced family: a short record (a contig, or a small ring) with 2-5 protoclusters of ONE product whose
+        neighbourhoods are all cut by the record ends (every extent is the whole record) and whose cores differ
+        (apart, touching, overlapping, nested; some sharing a defining gene), plus 0-2 protoclusters of another
+        product / with a smaller extent: within a candidate only the cores order the tied members """
+    length = draw(st.integers(60, 400))
+    circular = draw(st.integers(0, 3)) == 0
+    whole = {"parts": [[0, length]], "strand": 1}
+    count = draw(st.integers(2, 5))
+    protos = []
+    cuts = sorted(draw(st.sets(st.integers(0, length - 1), min_size=count + 1, max_size=2 * count)))
+    for _ in range(count):
+        lo = draw(st.integers(0, len(cuts) - 2))
+        hi = draw(st.integers(lo + 1, min(len(cuts) - 1, lo + 2)))
+        protos.append({"core": {"parts": [[cuts[lo], cuts[hi]]], "strand": 1}, "loc": whole, "product": "pa"})
+    for _ in range(draw(st.sampled_from([0, 0, 1, 2]))):
+        lo = draw(st.integers(0, len(cuts) - 2))
+        core = {"parts": [[cuts[lo], cuts[lo + 1]]], "strand": 1}
+        style = draw(st.integers(0, 2))
+        protos.append({"core": core, "loc": core if style == 0 else whole, "product": "pb" if style < 2 else "pa"})
+    genes = []
+    for number in range(draw(st.integers(0, 3))):
+        lo = draw(st.integers(0, len(cuts) - 2))
+        if cuts[lo + 1] - cuts[lo] >= 3 and all(gene["loc"]["parts"][0][0] != cuts[lo] for gene in genes):
+            genes.append({"name": f"g{number}", "loc": {"parts": [[cuts[lo], cuts[lo] + 3]], "strand": 1,
+                                                        "kind": "simple"},
+                          "core_for": draw(st.sampled_from([["pa"], ["pa", "pb"], []]))})
+    protos = list(draw(st.permutations(protos)))
+    indices = list(range(len(protos)))
+    if len(protos) <= 3:
+        perms = [list(p) for p in itertools.permutations(indices)]
+    else:
+        perms = [indices, indices[::-1]] + [list(draw(st.permutations(indices))) for _ in range(3)]
+    return {"L": length, "circular": circular, "genes": genes, "protos": protos, "perms": perms,
+            "family": "same_extent_same_product"}
+
+
+def enum_tie_cases(cells: int):
+    """ every set of 2-3 different cores (1-2 cells) on the line and on the ring, each a protocluster of the same
+        product whose extent is the whole record (neighbourhoods cut by both record ends); without genes, and with
+        one gene per cell (even cells hold core genes of the product, so cores sharing one form a hybrid) """
+    def cases():
+        length = 3 * cells
+        whole = {"parts": [[0, length]], "strand": 1}
+        for circular in (False, True):
+            cores = []
+            for size in (1, 2):
+                # no core across the origin: Protocluster refuses one whose extent does not cross the origin too
+                for start in range(cells - size + 1):
+                    cores.append(ring.arc_to_loc(3 * start, 3 * size, length, 1))
+            for with_genes in (False, True):
+                genes = [{"name": f"g{k}", "loc": {"parts": [[3 * k, 3 * k + 3]], "strand": 1},
+                          "core_for": ["pa"] if k % 2 == 0 else []} for k in range(cells)] if with_genes else []
+                for count in (2, 3):
+                    indices = list(range(count))
+                    perms = [list(p) for p in itertools.permutations(indices)]
+                    for combo in itertools.combinations(range(len(cores)), count):
+                        protos = [{"core": cores[number], "loc": whole, "product": "pa"} for number in combo]
+                        yield {"L": length, "circular": circular, "genes": genes, "protos": protos, "perms": perms,
+                               "family": "same_extent_same_product"}
+    return cases
+
+
+@st.composite
 def form_specs(draw):
     length = draw(gen.lengths(60, 3000))
     circular = draw(st.booleans())
@@ -882,8 +1017,8 @@ def form_specs(draw):
     twins: list = []
     for _ in range(count):
         mode = draw(st.sampled_from(["genes", "genes", "genes", "copy", "inside_core", "inside_extent", "arc",
-                                     "adjacent", "adjacent", "twin", "twin"]))
-        if not protos and mode in ("copy", "inside_core", "inside_extent", "adjacent", "twin"):
+                                     "adjacent", "adjacent", "twin", "twin", "same_extent"]))
+        if not protos and mode in ("copy", "inside_core", "inside_extent", "adjacent", "twin", "same_extent"):
             mode = "genes"
         product = draw(st.sampled_from(PRODUCTS))
         left = draw(st.sampled_from(hoods))
@@ -897,6 +1032,18 @@ def form_specs(draw):
             start, size = _arc_of(protos[twin_of]["core"], length)
             others = [name for name in PRODUCTS if name != protos[twin_of]["product"]]
             product = draw(st.sampled_from(others))
+        elif mode == "same_extent":
+            # the extent AND the product of an earlier protocluster, another core inside that extent: only the core
+            # tells the two apart (what two hits of one rule look like when the record ends cut both neighbourhoods)
+            base = draw(st.sampled_from(protos))
+            outer_start, outer_size = _arc_of(base["loc"], length)
+            size = min(draw(gen.coord(1, outer_size)), length - 1)
+            start = outer_start + draw(gen.coord(0, outer_size - size))
+            if circular:
+                start %= length
+            protos.append({"core": ring.arc_to_loc(start, size, length, 1), "loc": base["loc"],
+                           "product": base["product"]})
+            continue
         elif mode == "copy":
             base = draw(st.sampled_from(protos))
             if draw(st.booleans()):
@@ -1163,6 +1310,8 @@ def run(ctx) -> None:
              stop_after=3)
     ctx.extra["history_enumeration_cells"] = ctx.pick(5, 7)
     ctx.enum("form_history_enum", enum_history_cases(ctx.pick(5, 7)), shards=ctx.pick(8, 16), stop_after=3)
+    ctx.extra["ties_enumeration_cells"] = ctx.pick(4, 6)
+    ctx.enum("form_ties_enum", enum_tie_cases(ctx.pick(4, 6)), shards=ctx.pick(8, 16), stop_after=3)
     mixed = with_history(st.one_of(form_specs(), form_specs(), form_specs(), bridge_specs(), spanning_specs(),
-                                   chain_specs()))
+                                   chain_specs(), tie_specs()))
     ctx.hyp("form", mixed, max_examples=ctx.pick(2000, 30000), shards=ctx.pick(8, 16))
